@@ -93,7 +93,7 @@ def typer_part(ctx):
 
 
 def main(tier, seed):
-    items = standard_items(seed, tier, 12, 120, bench_quick=4, ps_quick=8, ps_thorough=220)
+    items = standard_items(seed, tier, 12, 60, bench_quick=4, ps_quick=8, ps_thorough=60, bench_thorough=15)
     variants = [("", {})] if tier == "quick" else [("", {}), ("-fp1", {"type_fp_iterations": 1}), ("-fp2", {"type_fp_iterations": 2})]
     if tier == "quick":
         variants.append(("-fp1", {"type_fp_iterations": 1}))
